@@ -178,6 +178,16 @@ def discover(raw):
             if any(a == "&'static str" or a == "&str" for a in args) and "Version" in ret:
                 qh.append(b["def"])
     want_fn(qh, SQLITE + "::Txn::get_version_impl", "the inherent sqlite helper taking the SQL text and returning a Version")
+    # route handlers registered from a table (`web::resource(path).guard(..).to(service)`) instead of by the #[get]/#[post]
+    # attribute macros: the handler is the plain `async fn api::<module>::service`; it is given the name the macro's expansion
+    # gives it (the macro wraps the very same function), so that the per-handler rules find it
+    have = set(b["def"] for _u, b in bodies())
+    for mod_ in WD.HANDLER_MODULES:
+        plain = "%s::api::%s::service" % (SERVER, mod_)
+        macro = "<%s as actix_web::service::HttpServiceFactory>::register::service" % plain
+        if macro not in have and plain in have and (plain + "::{closure#0}") in have:
+            fns[plain] = macro
+            notes.append("fn %s is the route handler %s (registered from a route table, not by the route macro)" % (plain, macro))
     return types, fields, fns, notes
 
 
